@@ -271,6 +271,14 @@ func startSrv(o SrvOpts) *Sess {
 	return ss
 }
 
+// startSrvWith starts Serve with an explicit handler and listener (timeout 0 = none).
+func startSrvWith(h *handler.Handler, ln *Listener, timeout time.Duration) *Sess {
+	s := &server.Server[handler.State]{Handler: h, ReadTimeout: timeout, Logger: quietLogger}
+	ss := &Sess{ln: ln, done: make(chan error, 1), h: h}
+	go func() { ss.done <- s.Serve(ln) }()
+	return ss
+}
+
 func (s *Sess) Dial(remote net.Addr) *Conn {
 	c := s.ln.Dial(remote)
 	s.conns = append(s.conns, c)
